@@ -502,7 +502,14 @@ impl std::io::Write for FileSpillWriter {
             )));
         }
 
-        self.file.write_all(buf).map_err(DataFusionError::IoError)?;
+        if let Err(e) = self.file.write_all(buf) {
+            // The bytes were not written: give them back so that the global usage
+            // still returns to zero once the spill files are dropped.
+            self.disk_manager
+                .used_disk_space
+                .fetch_sub(len, Ordering::Relaxed);
+            return Err(DataFusionError::IoError(e).into());
+        }
 
         self.current_file_disk_usage
             .fetch_add(len, Ordering::Relaxed);
